@@ -7,6 +7,8 @@ From Celer Require Import Base.Num Base.NumR Base.Stream Base.Vec3 C15.Samplers 
   C04.BetheHeitler C04.BetheHeitlerProofs C04.Rayleigh C04.FinalStates C04.FinalStatesProofs
   C04.AcceptProofs C04.BHAcceptProofs C04.RayleighProofs C04.RayleighTable C04.RayleighTableProofs
   C04.BremEnergy C04.BremEnergyProofs C04.Chips C04.ChipsProofs.
+From Celer Require C04.BremEnergyFloat.
+From Celer Require Import C04.Relax C04.RelaxProofs.
 Import ListNotations.
 Local Open Scope R_scope.
 
@@ -636,3 +638,38 @@ Theorem C04_chips_negative_q2_breaks_energy : forall (p : chips_params R) (q2 u 
   exists r, chips_final p q2 (u :: s) = Some (r, s) /\ i_deposit r = 0 /\ ch_energy p < i_energy r.
 Proof. exact chips_negative_q2_breaks_energy. Qed.
 Print Assumptions C04_chips_negative_q2_breaks_energy.
+
+(** KNOWN FINDING relbrem-photon-below-cut-by-density-correction-rounding: the SAME model function [rb_energy], run on
+    the binary64 instance at E = 1e8 MeV, cut 1e-3 MeV, d_rho = 1.3003e8 MeV^2, candidate draw 0, returns a photon
+    energy in [cut (1 - 1e-3), cut): C04_rb_energy_in_range (over R) does not survive the rounding of
+    sqrt(esq - d_rho).  Replayed on the real RelativisticBremInteractor by the corpus case. *)
+Theorem C04_rb_energy_below_cut_float_refuted : C04.BremEnergyFloat.rb_witness_below_cut = true.
+Proof. exact C04.BremEnergyFloat.rb_energy_below_cut_float_refuted. Qed.
+Print Assumptions C04_rb_energy_below_cut_float_refuted.
+
+(** ** Allocation of the relaxation cascade (AtomicRelaxationParams constructor minima + detail::calc_max_secondaries):
+    LivermorePEInteractor reserves 1 + max_secondary slots before sampling *)
+Theorem C04_relax_elem_min_le_all : forall (cuts : list R) init c, In c cuts -> elem_min init cuts <= c.
+Proof. exact elem_min_le_all. Qed.
+Print Assumptions C04_relax_elem_min_le_all.
+
+Theorem C04_relax_max_sec_bounds_cascade : forall shells (ce cg : R) fuel h v l,
+  cascade shells h v l -> (h <= fuel)%nat -> (emitted ce cg l <= max_sec fuel shells ce cg v)%nat.
+Proof. exact max_sec_bounds_cascade. Qed.
+Print Assumptions C04_relax_max_sec_bounds_cascade.
+
+(** the recorded per-element cuts being the minima over the materials containing the element, a cascade in ANY of those
+    materials (its own cuts), from any subshell, of nesting depth <= fuel, emits at most max_secondary secondaries *)
+Theorem C04_relax_allocation_sufficient : forall shells (e_cuts g_cuts : list R) (init_e init_g ce_m cg_m : R) fuel h i l,
+  In ce_m e_cuts -> In cg_m g_cuts -> (i < length shells)%nat ->
+  cascade shells h (Some i) l -> (h <= fuel)%nat ->
+  (emitted ce_m cg_m l <= max_secondary fuel shells (elem_min init_e e_cuts) (elem_min init_g g_cuts))%nat.
+Proof. exact allocation_sufficient. Qed.
+Print Assumptions C04_relax_allocation_sufficient.
+
+(** and with a recorded cut above a material's own cut the bound fails (the effect of the seeded change C04-m5) *)
+Theorem C04_relax_allocation_insufficient_with_too_high_cut :
+  exists shells l, cascade shells 1 (Some 0%nat) l /\
+    (max_secondary 2 shells 10%R 1%R < emitted 1%R 1%R l)%nat.
+Proof. exact allocation_insufficient_with_too_high_cut. Qed.
+Print Assumptions C04_relax_allocation_insufficient_with_too_high_cut.
